@@ -590,12 +590,14 @@ def orelse_view(fn_node):
   If in its block.  Rules that walk if / elif / else chains use this instead
   of `.orelse`."""
   where = {}
+  owner_of = {}
   for n in ast.walk(fn_node):
     for f in ('body', 'orelse', 'finalbody'):
       b = getattr(n, f, None)
       if isinstance(b, list):
         for i, st in enumerate(b):
           where[id(st)] = (b, i)
+          owner_of[id(st)] = n
 
   def orelse_of(n):
     if n.orelse:
@@ -603,7 +605,16 @@ def orelse_view(fn_node):
     if n.body and isinstance(n.body[-1], (ast.Return, ast.Raise, ast.Continue,
                                           ast.Break)) and id(n) in where:
       b, i = where[id(n)]
-      return b[i + 1:]
+      rest = b[i + 1:]
+      # the last statement of an if-body falls through to what follows that
+      # if: `if a: if b: return X` + `raise` has the raise as its else
+      cur = n
+      while not rest and isinstance(owner_of.get(id(cur)), ast.If) and \
+          id(owner_of[id(cur)]) in where:
+        cur = owner_of[id(cur)]
+        b2, i2 = where[id(cur)]
+        rest = b2[i2 + 1:]
+      return rest
     return []
 
   def next_arm(n):
